@@ -40,8 +40,10 @@ pub enum Act {
     Shrunk,
     /// old values are a prefix, a null value appended
     WithNullValue,
+    /// one value longer, all values different (longer but not an extension)
+    Regrown,
 }
-const ACTS: [Act; 6] = [Act::Same, Act::EqualCopy, Act::Extended, Act::Replaced, Act::Shrunk, Act::WithNullValue];
+const ACTS: [Act; 7] = [Act::Same, Act::EqualCopy, Act::Extended, Act::Replaced, Act::Shrunk, Act::WithNullValue, Act::Regrown];
 fn act_from(s: &str) -> Option<Act> {
     ACTS.iter().copied().find(|a| format!("{a:?}") == s.trim())
 }
@@ -195,6 +197,13 @@ fn apply(a: Act, cur: &FieldState, vt: &DataType, fresh: &mut u32) -> Option<Fie
             e.pop()?;
         }
         Act::WithNullValue => e.push(None),
+        Act::Regrown => {
+            e.push(None);
+            for x in e.iter_mut() {
+                *x = Some(*fresh);
+                *fresh += 1;
+            }
+        }
     }
     let arr = values_array(vt, &e);
     Some(FieldState { entries: e, arr })
@@ -388,7 +397,7 @@ impl HistoryModel for DictModel {
                     match res {
                         Err(e) => return Step::Violation(self.fp(&format!("decode-err:{rname}"), &last), format!("{rname}: {}", e.msg)),
                         Ok(d) => {
-                            if let Err(m) = flight_compare(&exp_schema, &model, d.schema.as_ref(), &d.batches, false) {
+                            if let Err(m) = flight_compare(&exp_schema, &model, d.schema.as_ref(), &d.batches, false, true) {
                                 return Step::Violation(self.fp(&format!("{}:{rname}", m.kind), &last), format!("{rname}: {}", m.detail));
                             }
                         }
